@@ -60,7 +60,7 @@ func tryB(f func()) *hx.PanicInfo {
 
 func TestMain(m *testing.M) {
 	R.Require("ber_mixed_forms", "signed_ber_mixed_forms", "wrapped_key_c3_altered", "recipients>1", "gcm", "descbc", "c1c2c3", "c1c3c2", "rsa_recipient", "non_recipient", "wrong_key", "sm2_signed_attrs", "sm2_signed_noattrs", "rsa_signed_library", "detached",
-		"mut:content", "mut:attr", "mut:digest_attr", "mut:signature", "mut:other_key_cert", "p12_pwd_nonascii", "p12_wrong_pwd", "p12_corrupt", "p12_cacerts", "p12_long_pwd", "signers>1")
+		"mut:content", "mut:attr", "mut:digest_attr", "mut:signature", "mut:other_key_cert", "p12_pwd_nonascii", "p12_wrong_pwd", "p12_corrupt", "p12_cacerts", "p12_long_pwd", "signers>1", "p12_mac_removed_then_modified", "rsa_signer_form:0", "rsa_signer_form:1", "rsa_signer_form:2", "rsa_signer_form:3")
 	hx.Main(m, R)
 }
 
@@ -562,6 +562,9 @@ var (
 	oidSM2sig     = asn1.ObjectIdentifier{1, 2, 156, 10197, 1, 501}
 	oidSHA1       = asn1.ObjectIdentifier{1, 3, 14, 3, 2, 26}
 	oidSHA1RSA    = asn1.ObjectIdentifier{1, 2, 840, 113549, 1, 1, 5}
+	oidSHA256     = asn1.ObjectIdentifier{2, 16, 840, 1, 101, 3, 4, 2, 1}
+	oidSHA256RSA  = asn1.ObjectIdentifier{1, 2, 840, 113549, 1, 1, 11}
+	oidRSAEnc     = asn1.ObjectIdentifier{1, 2, 840, 113549, 1, 1, 1}
 )
 
 type attrKV struct {
@@ -603,6 +606,7 @@ type sdSpec struct {
 	withAttrs  bool
 	extra      []byte
 	signerKey  interface{} // *gen.Key or *rsa.PrivateKey
+	rsaForm    int         // RSA signers: 0 SHA-1 + sha1WithRSAEncryption, 1 SHA-1 + rsaEncryption, 2 SHA-256 + sha256WithRSAEncryption, 3 SHA-256 + rsaEncryption (the usual CMS form)
 	cert       *gx.Certificate
 	// mutations applied after signing
 	mut string
@@ -612,12 +616,24 @@ func hashOf(s *sdSpec, data []byte) []byte {
 	if s.sm2 {
 		return rsm3.Sum(data)
 	}
+	if s.rsaForm >= 2 {
+		h := sha256.Sum256(data)
+		return h[:]
+	}
 	h := sha1.Sum(data)
 	return h[:]
 }
 
 func buildSigned(t *rapid.T, s *sdSpec, otherCert *gx.Certificate, otherKey interface{}) []byte {
 	digAlg, sigAlg := algID{Algorithm: oidSHA1}, algID{Algorithm: oidSHA1RSA}
+	switch s.rsaForm {
+	case 1:
+		sigAlg = algID{Algorithm: oidRSAEnc}
+	case 2:
+		digAlg, sigAlg = algID{Algorithm: oidSHA256}, algID{Algorithm: oidSHA256RSA}
+	case 3:
+		digAlg, sigAlg = algID{Algorithm: oidSHA256}, algID{Algorithm: oidRSAEnc}
+	}
 	if s.sm2 {
 		digAlg, sigAlg = algID{Algorithm: oidSM3hash}, algID{Algorithm: oidSM2sig}
 	}
@@ -650,9 +666,12 @@ func buildSigned(t *rapid.T, s *sdSpec, otherCert *gx.Certificate, otherKey inte
 			t.Fatalf("%v", err)
 		}
 	case *rsa.PrivateKey:
-		h := sha1.Sum(toSign)
+		h, hid := hashOf(&sdSpec{rsaForm: s.rsaForm}, toSign), crypto.SHA1
+		if s.rsaForm >= 2 {
+			hid = crypto.SHA256
+		}
 		var err error
-		sig, err = rsa.SignPKCS1v15(rand.Reader, k, crypto.SHA1, h[:])
+		sig, err = rsa.SignPKCS1v15(rand.Reader, k, hid, h)
 		if err != nil {
 			t.Fatalf("%v", err)
 		}
@@ -748,6 +767,8 @@ func TestC17_Signed(t *testing.T) {
 			otherCert = sm2Cert(t, o, "signer", 4242) // same subject/issuer name and serial
 			s.smOuterOID = rapid.Bool().Draw(t, "smoid")
 		} else {
+			s.rsaForm = gen.Uniform(t, "rsaform", 4)
+			R.Class(fmt.Sprintf("rsa_signer_form:%d", s.rsaForm))
 			s.signerKey = rsaKeys[0]
 			s.cert = rsaCerts[0]
 			otherKey = rsaKeys[1]
@@ -1217,6 +1238,49 @@ func TestC17_PKCS12(t *testing.T) {
 				}
 			}
 			R.Case(true, hx.HashKey("p12mut", mut), "p12_corrupt")
+		}
+		// TWO modifications: the integrity value taken out of the way (the macData element dropped, or its tag changed
+		// so that it no longer reads as macData) and then any second byte changed. Whatever the decoder makes of a
+		// bundle without a usable MAC, it must not hand out a different key or certificate.
+		if gen.OneIn(t, "nomac", 3) {
+			top := rder.Walk(pfx)[0]
+			kids := children(pfx, top)
+			if len(kids) != 3 {
+				t.Fatalf("harness: PFX with %d members", len(kids))
+			}
+			mac := kids[2]
+			flipped := append([]byte{}, pfx...)
+			flipped[mac.Start] = 0x31
+			body := pfx[top.Start+top.HdrLen : mac.Start]
+			dropped := append(rder.EncLen(0x30, len(body)), body...)
+			for vi, variant := range [][]byte{flipped, dropped} {
+				for pos := 0; pos < len(variant); pos++ {
+					for _, mask := range []byte{0x01, 0x80} {
+						mut := append([]byte{}, variant...)
+						mut[pos] ^= mask
+						var mk interface{}
+						var mc []*gx.Certificate
+						var e error
+						if p := tryB(func() { mk, mc, e = pkcs12.DecodeAll(mut, pwd) }); p != nil {
+							t.Fatalf("DecodeAll of a bundle without usable macData panicked (variant %d, byte %d ^ %#x): %v\n%s", vi, pos, mask, p.Val, p.Stack)
+						}
+						if e != nil {
+							continue
+						}
+						var gotD *big.Int
+						switch k := mk.(type) {
+						case *ecdsa.PrivateKey:
+							gotD = k.D
+						case *rsa.PrivateKey:
+							gotD = k.D
+						}
+						if gotD == nil || gotD.Cmp(wantD) != 0 || len(mc) == 0 || !bytes.Equal(mc[0].Raw, cert.Raw) {
+							t.Fatalf("bundle with its macData %s and byte %d ^ %#x decoded, under the right password, to a DIFFERENT key or certificate", []string{"made unreadable (tag 0x31)", "dropped"}[vi], pos, mask)
+						}
+					}
+				}
+			}
+			cl = append(cl, "p12_mac_removed_then_modified")
 		}
 		R.Case(true, hx.HashKey(pfx), cl...)
 		R.Sample("pkcs12", map[string]interface{}{"pwd": pwd, "p256": useP256, "cas": nca, "len": len(pfx)})
